@@ -13,6 +13,7 @@ import (
 	"context"
 	"fmt"
 	"os"
+	"path/filepath"
 	"sort"
 	"strings"
 	"testing"
@@ -28,11 +29,18 @@ import (
 	"verifharness/hx"
 )
 
-var stats = evid.New("C09", "rapid: 2-4 repositories with prefix-related names (a, ab, a-b, abc, ...), 0-3 bundles each drawn as subsets of a shared pool of paths with shared / alternative contents (shared blobs, optionally the same bundle ID in several repos), entries per index file in {1,2,3,1000} through the verif hook (multi-index bundles), labels, plain or CRC stores; then 1-2 operations among DeleteRepo, RenameRepo (new name absent / present / itself), DeleteEntriesFromRepo (paths present, absent, near misses, all files of a bundle, positions in the first / middle / last index file), DeleteBundle, DeleteLabel, CreateRepo, on existing and absent repositories. Oracle: map model + archive key-layout model: after each operation the raw diff of the three stores is exactly the predicted one and the touched repositories are listed and downloaded through datamon; at the end all repositories are. Concurrent CreateRepo: 2-4 creators of one name under the memstore scheduler (all interleavings of their store calls enumerated in the pinned test, drawn in the property) and free running. Non-trivial: the target repository name is a proper prefix of / has as proper prefix another existing repository, or delete-files touches a bundle with >= 2 index files; distinct by (operation, outcome, prefix relation, hit class, index class).")
+var stats = evid.New("C09", "rapid: 2-4 repositories with prefix-related names (a, ab, a-b, abc, ...), 0-3 bundles each drawn as subsets of a shared pool of paths with shared / alternative contents (shared blobs, optionally the same bundle ID in several repos), entries per index file in {1,2,3,1000} through the verif hook (multi-index bundles), labels, plain or CRC stores, optionally the file list of an interrupted upload (no bundle.yaml) in a repository; then 1-2 operations among DeleteRepo, RenameRepo (new name absent / present / itself), DeleteEntriesFromRepo (paths present, absent, near misses, all files of a bundle, positions in the first / middle / last index file), DeleteBundle, DeleteLabel, CreateRepo, on existing and absent repositories. Oracle: map model + archive key-layout model: after each operation the raw diff of the three stores is exactly the predicted one and the touched repositories are listed and downloaded through datamon; at the end all repositories are. Concurrent CreateRepo: 2-4 creators of one name under the memstore scheduler (all interleavings of their store calls enumerated in the pinned test, drawn in the property) and free running. Input classes of listed known findings are excluded and counted (excluded_<id>). Non-trivial: the target repository name is a proper prefix of / has as proper prefix another existing repository, or delete-files touches a bundle with >= 2 index files; distinct by (operation, outcome, prefix relation, hit class, index class).")
 
 func TestMain(m *testing.M) {
 	code := m.Run()
 	stats.Flush()
+	// A download that fails half-way (the pinned cases of the known finding) leaves datamon goroutines
+	// behind which may re-create files in the case directory after it was removed: sweep at exit.
+	if left, err := filepath.Glob(filepath.Join(hx.ScratchRoot(), fmt.Sprintf("verif-%d-*", os.Getpid()))); err == nil {
+		for _, d := range left {
+			_ = os.RemoveAll(d)
+		}
+	}
 	os.Exit(code)
 }
 
